@@ -360,8 +360,8 @@ func init() {
 		MinNontrivial: 2000,
 		Streams: []Stream{
 			{Name: "grid", Setup: c17Setup, N: c17GridN, Run: c17Grid, Exhaustive: true},
-			{Name: "random", N: func(c *Ctx) int { return tierN(c, 30000, 2000000) }, Run: c17Random},
-			{Name: "slot-rewrites", N: func(c *Ctx) int { return tierN(c, 15000, 1000000) }, Run: c17SlotRewrites},
+			{Name: "random", N: func(c *Ctx) int { return tierN(c, 30000, 6000000) }, Run: c17Random},
+			{Name: "slot-rewrites", N: func(c *Ctx) int { return tierN(c, 15000, 3000000) }, Run: c17SlotRewrites},
 		},
 	})
 }
